@@ -30,7 +30,9 @@ ClassifyBase(cfg, o, w) ==
        \E d \in Sub(o, w.a) : ~o.snap[d].sig /\ o.snap[d].res # <<>> /\ ResDone(o.snap[d]) /\ InNoHistory(o, d)            -> "F11"
     \* F0 again: an unrelated event drained inline runs under the draining handler's timeout; when that fires, the handlers of the
     \* unrelated event that had not started are failed without ever running
-    [] w.c = "C01.missing" /\ <<w.b, w.e, "Cancelled">> \in o.procX /\ (\E tk \in o.take : tk[1] = w.b /\ tk[2] = w.e /\ ~tk[4])
+    [] w.c = "C01.missing" /\ <<w.b, w.e, "Cancelled">> \in o.procX /\ (\E tk \in o.take : tk[1] = w.b /\ tk[2] = w.e)
+       \* (the event itself, or an event whose handler was draining it, was taken by a drain that was not waiting for it)
+       /\ (\E tk \in o.take : ~tk[4] /\ <<tk[1], tk[2], "Cancelled">> \in o.procX) /\ ~TimedOutAncestor(o, w.e)
        /\ (\E i \in ResOf(o.snap[w.e], w.h, w.b) : o.snap[w.e].res[i].err \in {"Cancelled:pending", "Cancelled:interrupted"})   -> "F0"
     [] w.c = "C04.incomplete" /\ w.k = "held"                                -> "F1"
     \* an await that returned an incomplete child for a recorded reason (F1, F2, F4, F11 ...) also lets unrelated handlers run before the child
